@@ -1,6 +1,6 @@
 """C08 — failure reports point at the furthest failure with sound expectations."""
 from props.vmcommon import *
-import binascii
+import binascii, re
 
 MODULES = ["PestModel.Thm.C08"]
 LISTER_ID = "C05-lister-not-preserving"
@@ -58,30 +58,47 @@ def run(ctx):
         rc, o = sh([os.path.join(bindir, SEM), "gen", ctx.tier, str(ctx.seed), outdir, "C08"], timeout=3000)
         if rc != 0:
             ctx.violation({"correspondence": "spec-" + fs, "error": o[-1500:]}, no_input=True); continue
-        c = correspond_existing("spec-" + fs, outdir, MODE)
-        if c.error:
-            ctx.violation({"correspondence": c.name, "error": c.error}, no_input=True); continue
+        # the optimizer may merge or drop attempts (e.g. `(r ~ x) | r` becomes `r ~ x?`: one attempt of r instead of two), so on
+        # the grammar AS WRITTEN the report is judged for soundness, not for equality: same furthest position, and every
+        # expected / unexpected rule is among the rules that failed / matched under negation there (SA lines). The exact
+        # equality is leg 1b (specification on the optimized rule set).
+        ops = read_lines(os.path.join(outdir, "ops.txt")); imp = read_lines(os.path.join(outdir, "impl.txt")); orc = read_lines(os.path.join(outdir, "oracle.txt"))
+        sa = os.path.join(outdir, "sa"); os.makedirs(sa, exist_ok=True)
+        open(os.path.join(sa, "ops.txt"), "w").write("\n".join("SA" + o[1:] if o.startswith("S ") else o for o in ops) + "\n")
+        okm, err = run_model(MODE, os.path.join(sa, "ops.txt"), os.path.join(sa, "model.txt"))
+        if not okm:
+            ctx.violation({"correspondence": "spec-" + fs, "error": err[-1500:]}, no_input=True); continue
+        mod = read_lines(os.path.join(sa, "model.txt"))
         unlisted = []
-        oracle = {i: v for (i, op, imp, v) in c.oracle_fail}
-        for (i, op, imp, mod) in c.mismatch:
-            a, b = imp.split(" | "), mod.split(" | ")
+
+        def parts(t):
+            m = re.match(r"err (\d+) \[(.*?)\] \[(.*?)\]$", t)
+            return (int(m.group(1)), set(filter(None, m.group(2).split(","))), set(filter(None, m.group(3).split(",")))) if m else None
+        for i, (op, im, mo) in enumerate(zip(ops, imp, mod)):
+            a, b = im.split(" | "), mo.split(" | ")
             nolist = {}
-            for item in oracle.get(i, "").split()[1:]:
+            for item in (orc[i] if i < len(orc) else "").split()[1:]:
                 k, _, h = item.partition("=")
                 try:
                     nolist[int(k)] = binascii.unhexlify(h).decode()
                 except Exception:
                     pass
             for j, (x, y) in enumerate(zip(a, b)):
-                if x != y:
-                    if lister_known and nolist.get(j) == y:
-                        ctx.known_finding(LISTER_ID + "/C08", "(via the optimizer `list` pass, see C05) the reported attempts differ from the specification computed on the unoptimized grammar")
-                    else:
-                        unlisted.append((split_case(op, j), x, y))
+                if x == y or y in ("fuel", "bad-op"):
+                    continue
+                px, py = parts(x), parts(y)
+                if px and py and px[0] == py[0] and px[1] <= py[1] and px[2] <= py[2]:
+                    continue      # sound: furthest position, rules drawn from the attempts made there
+                # the disagreement disappears when the `list` pass is left out (hook H2): the lister finding
+                pn = parts(nolist[j]) if j in nolist else None
+                if lister_known and j in nolist and (nolist[j] == y or (pn and py and pn[0] == py[0] and pn[1] <= py[1] and pn[2] <= py[2])):
+                    ctx.known_finding(LISTER_ID + "/C08", "(via the optimizer `list` pass, see C05) the reported attempts differ from the specification computed on the unoptimized grammar")
+                else:
+                    unlisted.append((split_case(op, j), x, y))
         if unlisted:
-            case, imp, spec = min(unlisted, key=lambda t: (len(t[0]), t[0]))
-            ctx.violation({"kind": "the failure report of Vm::parse is not the furthest-failure report the property specifies (specReport on the call tree of the reference semantics)",
-                           "features": fs, "case": case, "impl": imp, "specification": spec, "failing_inputs_in_run": len(unlisted)})
+            case, im, spec = min(unlisted, key=lambda t: (len(t[0]), t[0]))
+            ctx.violation({"kind": "the failure report of Vm::parse is not sound for the grammar as written: its position is not the furthest position of a reportable attempt of the reference semantics, or it lists a rule that did not fail (resp. match under negation) there",
+                           "features": fs, "case": case, "impl": im, "position_and_all_attempts_there": spec, "failing_inputs_in_run": len(unlisted)})
     # merge the second leg's numbers into the evidence file written by leg 1
     ev_path = os.path.join(EVIDENCE, f"{ctx.prop}.json")
     ev = json.load(open(ev_path))
